@@ -71,9 +71,11 @@ def main():
         finally:
             sh('git -C /repo worktree remove --force %s' % wt)
     # run the checks against /repo with the patch applied
-    rc, out = sh('git -C /repo status --porcelain')
-    assert out.strip() == '', '/repo not clean: ' + out
-    rc, out = sh('git -C /repo apply %s' % patch)
+    repo = os.environ.get('SEED_REPO', '/repo')
+    os.environ['VERIF_REPO'] = repo
+    rc, out = sh('git -C %s status --porcelain' % repo)
+    assert out.strip() == '', repo + ' not clean: ' + out
+    rc, out = sh('git -C %s apply %s' % (repo, patch))
     assert rc == 0, out
     res['checks'] = {}
     try:
@@ -83,7 +85,7 @@ def main():
             res['checks'][p] = {'rc': rc, 'violations': len(viol),
                                 'tail': out[-1500:]}
     finally:
-        sh('git -C /repo checkout -- .')
+        sh('git -C %s checkout -- .' % repo)
     res['caught'] = any(c['rc'] == 1 for c in res['checks'].values())
     json.dump(res, open(os.path.join(d, 'result.json'), 'w'), indent=1)
     print(json.dumps({k: v for k, v in res.items() if k != 'checks'}, indent=1))
